@@ -82,7 +82,7 @@ var ops = []opInfo{
 // that may write register r and reports whether it is a LOADK of a string
 // constant (straight-line approximation, conservative: any other writer fails).
 func lastWriterIsStringLoadK(p *lua.FunctionProto, code []uint32, start []bool, pc, r int) bool {
-	for q := pc - 1; q >= 0 && q >= pc-400; q-- {
+	for q := pc - 1; q >= 0; q-- {
 		if !start[q] {
 			continue
 		}
